@@ -274,6 +274,38 @@ type Once struct {
 	done bool
 }
 
+// OnceFunc, OnceValue and OnceValues stand for their sync namesakes, built on the scheduler-aware
+// Mutex (a goroutine blocked in the real sync.Once would be invisible to the scheduler).
+func OnceFunc(f func()) func() {
+	var o Once
+	return func() { o.Do(f) }
+}
+
+func OnceValue[T any](f func() T) func() T {
+	var o Once
+	var v T
+	return func() T {
+		o.Do(func() { v = f() })
+		return v
+	}
+}
+
+func OnceValues[T1, T2 any](f func() (T1, T2)) func() (T1, T2) {
+	var o Once
+	var v1 T1
+	var v2 T2
+	return func() (T1, T2) {
+		o.Do(func() { v1, v2 = f() })
+		return v1, v2
+	}
+}
+
+// the parts of sync that never block
+type (
+	Pool = sync.Pool
+	Map  = sync.Map
+)
+
 func (o *Once) Do(f func()) {
 	o.m.Lock()
 	defer o.m.Unlock()
